@@ -179,7 +179,9 @@ func (r *Runner) Do(op *Op) Obs {
 	case "expire":
 		return Obs{K: classify(r.M.ExpireDatum(time.Duration(op.E), ls...))}
 	case "emit":
-		return Obs{K: "listing", L: r.Listing()}
+		l := r.Listing()
+		r.jsonView(l)
+		return Obs{K: "listing", L: l}
 	}
 	panic("mrun: unknown op " + op.K)
 }
